@@ -375,7 +375,7 @@ theorem InvC_step {P : Params} {s s' : St} {e : Ev} (h : InvC P s) (hA : InvA P 
   | mExitOne i => exact InvC_wframe h (mExitOne_frame hs)
   | mExitIdle => exact InvC_wframe h (mExitIdle_frame hs)
   | mJoin => exact InvC_mJoin hs
-  | wTop i => exact InvC_wframe h (wTop_frame hs)
+  | wTop i o0 => exact InvC_wframe h (wTop_frame hs)
   | wEnc i full newOut => exact InvC_wframe h (wEnc_frame hs)
   | wEncErr i r => exact InvC_wframe h (wEncErr_frame hs)
   | wFb i => exact InvC_wframe h (wFb_frame hs)
